@@ -10,6 +10,7 @@ Positive evidence asked for, all three together: inside a loop over a chunk iter
 counter declared outside the loop is incremented by the literal one per block, and (c) that counter is used as a divisor."""
 from .core import RuleResult
 from .facts import fn_key, fn_loc, walk, strip, peel_refs, pat_bindings, Render
+from .facts import lit_float, lit_number
 
 CHUNKS = {"axis_chunks_iter", "axis_chunks_iter_mut", "chunks", "chunks_exact", "exact_chunks", "exact_chunks_mut", "chunks_mut"}
 
@@ -74,7 +75,7 @@ def make_rule(rid, select, what):
                         block_mean = block_mean or y
                 counters = {}
                 for y in walk(body):
-                    if y.get("k") == "AssignOp" and y["op"] == "+" and peel_refs(y["r"]).get("k") == "Lit" and str(peel_refs(y["r"]).get("v")).rstrip("usizeu3264_") == "1":
+                    if y.get("k") == "AssignOp" and y["op"] == "+" and peel_refs(y["r"]).get("k") == "Lit" and lit_float(peel_refs(y["r"]).get("v")) == 1.0:
                         rt = _root(y["l"])
                         if rt is not None and rt not in inner:
                             counters[rt] = y
@@ -87,6 +88,86 @@ def make_rule(rid, select, what):
                 else:
                     res.ok()
         res.instance("%d functions scanned, %d loops over blocks" % (n_fns, n_loops))
+        if n_fns:
+            res.ok()
+        else:
+            res.missing_anchor("functions of %s" % what)
+        return res.finish(1)
+    rule.__name__ = "rule_" + rid.replace("-", "_")
+    return rule
+
+
+
+def make_offset_rule(rid, select, what):
+    """Work done block by block writes block b at offset b * BLOCK: the *nominal* block length.  `b * block.len()` is the same
+    number for every full block and a smaller one for a short last block, whose results then land on top of earlier rows
+    while the tail keeps whatever the buffer held - for every size that is not a multiple of the block length."""
+    def rule(ctx):
+        from .c17 import for_loops
+        res = RuleResult(rid, "blocked loops in %s place block b at b * (nominal block length), not at b * (length of the current block)" % what)
+        F = ctx.facts()
+        n_fns = n_loops = 0
+        for fn in F.all_fns():
+            if not select(fn) or fn.get("exp") or "tests" in fn["d"]["path"]:
+                continue
+            n_fns += 1
+            c = fn["crate"]
+            r = Render(c)
+            key = fn_key(fn)
+            inits = {}
+            for y in walk(fn["body"]):
+                if y.get("k") == "LetStmt" and y.get("init") is not None and y["pat"].get("k") == "Bind":
+                    inits[y["pat"]["local"]] = y["init"]
+            bodies = []
+            for it, pat, body, node in for_loops(fn["body"]):
+                src = [it]
+                for z in walk(it):
+                    if z.get("k") == "Path" and z.get("local") in inits:
+                        src.append(inits[z["local"]])      # `blocks.iter().enumerate()` with `let blocks = x.axis_chunks_iter(..)..collect()`
+                if any(y.get("k") == "MethodCall" and y["name"] in CHUNKS for e in src for y in walk(e)) and any(y.get("k") == "MethodCall" and y["name"] == "enumerate" for e in src for y in walk(e)):
+                    bodies.append((pat, body, node))
+            # closure form: `chunks.enumerate().for_each(|(b, block)| ..)` / par_iter variants
+            for y in walk(fn["body"]):
+                if y.get("k") == "MethodCall" and y["name"] in ("for_each", "map", "flat_map", "try_for_each") and y["args"] and strip(y["args"][0]).get("k") == "Closure":
+                    if any(z.get("k") == "MethodCall" and z["name"] in CHUNKS for z in walk(y["recv"])) and any(z.get("k") == "MethodCall" and z["name"] == "enumerate" for z in walk(y["recv"])):
+                        clo = strip(y["args"][0])
+                        if clo["params"]:
+                            bodies.append((clo["params"][0], clo["body"], y))
+            for pat, body, node in bodies:
+                n_loops += 1
+                res.instance("%s : blocked loop (line %s)" % (key, node.get("ln")))
+                p0 = pat
+                while p0.get("k") == "Ref":
+                    p0 = p0["pat"]
+                if p0.get("k") != "Tuple" or len(p0["pats"]) < 2:
+                    res.ok()
+                    continue
+                idx = {b["local"] for b in pat_bindings(p0["pats"][0])}
+                blk = {b["local"] for q in p0["pats"][1:] for b in pat_bindings(q)}
+                # locals bound to parts of the block inside the body
+                for y in walk(body):
+                    if y.get("k") == "LetStmt" and y.get("init") is not None and any(z.get("k") == "Path" and z.get("local") in blk for z in walk(y["init"])) and not any(z.get("k") == "MethodCall" and z["name"] in ("len", "nrows", "len_of", "dim") for z in [peel_refs(y["init"])]):
+                        blk |= {b["local"] for b in pat_bindings(y["pat"])}
+                bad = None
+                lens = {}
+                for y in walk(body):
+                    if y.get("k") == "LetStmt" and y.get("init") is not None and y["pat"].get("k") == "Bind":
+                        i1 = peel_refs(y["init"])
+                        if i1.get("k") == "MethodCall" and i1["name"] in ("len", "nrows", "len_of") and peel_refs(i1["recv"]).get("local") in blk:
+                            lens[y["pat"]["local"]] = i1
+                for y in walk(body):
+                    if y.get("k") == "Binary" and y["op"] == "*":
+                        for a, b in ((y["l"], y["r"]), (y["r"], y["l"])):
+                            a0, b0 = peel_refs(a), peel_refs(b)
+                            if a0.get("k") == "Path" and a0.get("local") in idx:
+                                is_len = (b0.get("k") == "MethodCall" and b0["name"] in ("len", "nrows", "len_of") and peel_refs(b0["recv"]).get("local") in blk) or (b0.get("k") == "Path" and b0.get("local") in lens)
+                                if is_len:
+                                    bad = y
+                if bad is not None:
+                    res.violate("%s : block-offset-from-current-block-length" % key, "`%s`: block b is placed at b times the length of the *current* block: right for full blocks, too small for a short last block - its results overwrite earlier rows and the tail is never written - for every size that is not a multiple of the block length" % r.e(bad)[:50], fn_loc(fn, bad.get("ln")))
+                else:
+                    res.ok()
+        res.instance("%d functions scanned, %d blocked loops with a block index" % (n_fns, n_loops))
         if n_fns:
             res.ok()
         else:
